@@ -271,15 +271,14 @@ def enumFrom1 {α : Type} : Nat → List α → List (Nat × α)
   | _, [] => []
   | n, a :: r => (n, a) :: enumFrom1 (n + 1) r
 
-/-- `write_interfile_modality`, `write_interfile_patient_position` (interfile.cxx:369-410: rotations `left`/`right`
-    are written as `other`), calibration factor (l.577), `write_interfile_radionuclide_info` (l.475),
+/-- `write_interfile_modality`, `write_interfile_patient_position` (interfile.cxx:369-416: supine, prone, right, left,
+    other are written under their own names, unknown is not written), calibration factor, `write_interfile_radionuclide_info` (l.475),
     `write_interfile_time_frame_definitions` (l.412: frames with duration ≤ 0 are skipped),
     `write_interfile_energy_windows` (l.438) -/
 def writeExam (e : Exam) : ExamHeader :=
   { modality := if e.modality = 0 then none else some e.modality
     orientation := if e.orientation < 3 then some e.orientation else none
-    rotation := (if e.rotation = 0 then some 0 else if e.rotation = 1 then some 1
-                 else if e.rotation = 2 ∨ e.rotation = 3 ∨ e.rotation = 4 then some 4 else none)
+    rotation := if e.rotation < 5 then some e.rotation else none
     calibration := if e.calibration > 0 then some e.calibration else none
     window := if e.highThres > 0 ∧ e.lowThres ≥ 0 then some (e.lowThres, e.highThres) else none
     numFrames := if e.frames.length > 0 then e.frames.length else 1
@@ -307,7 +306,7 @@ def readExam (h : ExamHeader) (db : Option (Rat × Rat)) : Exam :=
     | none => ((if name = "" then "Unknown" else name), h.rnHalfLife.getD (-1), h.rnBranching.getD (-1))
   let win : Rat × Rat :=
     match h.window with
-    | some (lo, hi) => if hi > 0 ∧ lo > 0 then (lo, hi) else (-1, -1)   -- l.384: both must be > 0
+    | some (lo, hi) => if hi > 0 ∧ lo ≥ 0 then (lo, hi) else (-1, -1)   -- l.384: `upper > 0 && lower >= 0`
     | none => (-1, -1)
   { modality := modality
     orientation := h.orientation.getD 3
